@@ -2,6 +2,7 @@ package main
 
 import (
 	"fmt"
+	"os"
 	"go/ast"
 	"go/parser"
 	"path/filepath"
@@ -130,6 +131,49 @@ func genShapes(repo string) {
 	if len(attempts) == 0 || len(consts) == 0 {
 		fail("CheckReferFile / calcMatchStrScore not found")
 	}
+	// pattern checks: which function of check/analysis passes which constant error type to InsertError
+	pat := map[string]bool{"CheckErrorTableDuplicateKey": true, "CheckErrorAssignParamNum": true, "CheckErrorLocalParamNum": true, "CheckErrorDuplicateParam": true,
+		"CheckErrorDuplicateExp": true, "CheckErrorOrAlwaysTrue": true, "CheckErrorAndAlwaysFalse": true, "CheckErrorDuplicateIf": true, "CheckErrorSelfAssign": true, "CheckErrorFloatEq": true}
+	var patIns []string
+	adir := filepath.Join(repo, "langserver/check/analysis")
+	pkgs, err := parser.ParseDir(fset, adir, func(fi os.FileInfo) bool { return !strings.HasSuffix(fi.Name(), "_test.go") }, 0)
+	if err != nil {
+		fail("parse %s: %v", adir, err)
+	}
+	for _, pk := range pkgs {
+		for _, file := range pk.Files {
+			for _, d := range file.Decls {
+				fd, ok := d.(*ast.FuncDecl)
+				if !ok || fd.Body == nil {
+					continue
+				}
+				ast.Inspect(fd.Body, func(n ast.Node) bool {
+					c, ok := n.(*ast.CallExpr)
+					if !ok || len(c.Args) < 1 {
+						return true
+					}
+					se, ok := c.Fun.(*ast.SelectorExpr)
+					if !ok || (se.Sel.Name != "InsertError" && se.Sel.Name != "InsertRelateError") {
+						return true
+					}
+					name := ""
+					switch a := c.Args[0].(type) {
+					case *ast.SelectorExpr:
+						name = a.Sel.Name
+					case *ast.Ident:
+						name = a.Name
+					}
+					if pat[name] {
+						patIns = append(patIns, name+"@"+fd.Name.Name)
+					}
+					return true
+				})
+			}
+		}
+	}
+	sort.Strings(patIns)
+	b.WriteString("/-- \"type@function\" for every InsertError call of check/analysis with one of the ten pattern-check types -/\n")
+	b.WriteString("def patternInserts : List String := " + leanStrList(patIns) + "\n\n")
 	// class closure: order of "mark visited" / "expand parents" / "expand alias" in getClassTypeInfoList
 	var closureOrder []string
 	af, err := parser.ParseFile(fset, filepath.Join(repo, "langserver/check/check_lsp_annotate.go"), nil, 0)
